@@ -192,8 +192,12 @@ def run(c):
         if o["rt"] not in ("same", "na"):
             c.violation("RoundTrip:SignedPathSegment", "a signed segment does not survive into_rpc/try_from_rpc (%s) after %s" % (o["rt"], hist_str(h["h"])),
                         {"kind": "tamper", "case": h, "real": o})
-    if accepted_entries == 0 or rejected == 0:
-        c.fail_tool("vacuous replay: accepted entries=%d, segments refused at conversion=%d" % (accepted_entries, rejected))
+    # vacuity is judged on what the GENERATOR asked for, never on what the code under test answered
+    want_valid = sum(1 for h in cases for e in h["e"] if e["v"])
+    want_invalid = sum(1 for h in cases for e in h["e"] if not e["v"])
+    if want_valid == 0 or want_invalid == 0:
+        c.fail_tool("vacuous generation: expected-valid entries=%d, expected-invalid entries=%d" % (want_valid, want_invalid))
+    c.cov["entries_accepted_by_code"] = accepted_entries
     c.cov["replayed"] = len(cases)
     c.cov["replay_conformance_mismatches"] = mism
     c.cov["evaluations"] = verdicts
@@ -216,7 +220,8 @@ def run(c):
         c.violation("%s:bit" % pv["key"], pv["what"] + " after flipping bit %d (%s of entry %d, honest segment of %d entries)" % (pv["bit"], pv["op"], pv["a"], pv["n"]),
                     {"kind": "flip", "n": pv["n"], "op": pv["op"], "a": pv["a"], "bit": pv["bit"], "real": pv["real"]})
     want = sum(1 for h in fl if h["n"] <= 3)
-    if fr["exhaustive_cases"] != want or fr["flips"] < 5000:
+    honest_failed = any(pv["key"].startswith("RejectsValid:honest-construction") for pv in fr["pv"])
+    if not honest_failed and (fr["exhaustive_cases"] != want or fr["flips"] < 5000):
         c.fail_tool("bit-flip campaign incomplete: %s exhaustive cases (want %d), %s flips" % (fr["exhaustive_cases"], want, fr["flips"]))
     c.cov["bit_flips"] = fr["flips"]
     c.cov["bit_flip_classes"] = fr["classes"]
@@ -244,8 +249,9 @@ def run(c):
             mism += 1
             c.drift("RpcConv %s %s: table says %s, real %s (%s)" % (cell["k"], cell["f"], cell["x"], o["got"], o["detail"][:80]))
     for k in ("HopField", "HopEntry", "PeerEntry", "SegInfo", "AsEntry", "PathSegment", "Segments", "PathInterface", "Path"):
-        if not kinds_ok.get(k):
-            c.fail_tool("vacuous RPC table: no %s cell converted" % k)
+        if not any(cell["k"] == k and cell["x"] == "ok" for cell in cells):
+            c.fail_tool("vacuous RPC table: no %s cell is expected to convert" % k)
+    c.cov["rpc_cells_converted_by_code"] = kinds_ok
     c.cov["rpc_cells"] = len(cells)
     c.cov["replayed"] += len(cells)
     c.cov["evaluations"] += len(cells)
